@@ -6,7 +6,9 @@ from .. import core, spaces
 
 PROP = "C16"
 ALPHA = "STYKEG"
-LONG = ["KSEKTGKEYEKE", "KKSKKYEEEETE"]
+LONG = ["KSEKTGKEYEKE", "KKSKKYEEEETE",
+        # phospho-states inside kappa's clamp window (delta / delta-max in (1, 1.1): kappa is exactly 1.0)
+        "KKSETEYEK", "EDSKRKRKYE"]
 LONG4 = ["GSKKEYEDTGRS"]     # four sites: 65 states (thorough only)
 
 
@@ -170,6 +172,21 @@ def state_invariants(seq, sites, o, case, out):
                     break
         if o.get_phosphosites() != sites or o.get_sequence() != seq:
             v("query-changed-state", "%s: read-only phospho queries changed the site list to %r" % (seq, o.get_phosphosites()))
+        # what the queries returned belongs to the caller: overwrite every returned container, then one more transition on this
+        # object (every position offered at once) must still follow the model
+        from ..engines.history import scramble
+        for x in (got, sty, dist, o.get_all_phosphorylatable_sites(), o.get_phosphosites()):
+            scramble(x)
+        if case.get("kind") != "noscramble":
+            everything = list(range(1, len(seq) + 1))
+            o.set_phosphosites(everything)
+            calls += 1
+            exp2 = model_set(seq, sites, everything)
+            if o.get_phosphosites() != exp2:
+                v("returned-container-is-internal-state", "%s sites %r: after the caller overwrote the lists it was handed by the read-only "
+                  "queries, set_phosphosites(1..N) gives %r, model says %r" % (seq, sites, o.get_phosphosites(), exp2))
+            elif o.get_phosphosequence() != "".join("E" if (i + 1) in exp2 else a for i, a in enumerate(seq)):
+                v("returned-container-is-internal-state", "%s: phosphosequence wrong after the caller overwrote returned lists" % seq)
     except Exception as e:  # noqa
         v("query-raises", "%s sites %r: a phospho query raised %r" % (seq, sites, e))
     return calls
